@@ -75,7 +75,7 @@ def find_memos(f: FuncInfo):
                 isinstance(n.func.value, ast.Name) and len(n.args) == 2 and isinstance(n.args[1], ast.Call):
             out.append((n.func.value.id, n.args[0], n.args[1], n))
         # v = C.get(K) ... if v is None: [v =] C[K] = V      (also as a chained assignment)
-        if isinstance(n, ast.Assign) and isinstance(n.value, ast.Call):
+        if isinstance(n, ast.Assign):
             for t in n.targets:
                 if isinstance(t, ast.Subscript) and isinstance(t.value, ast.Name):
                     cache, ktxt = t.value.id, norm_stmt(t.slice)
@@ -103,8 +103,8 @@ def check_memos(ctx, funcs: List[FuncInfo]):
             module_level = (not is_param) and local_def is None and cache in f.module.assigns
             # the repository calls inside the memoised value
             calls = [c for c in ast.walk(val) if isinstance(c, ast.Call)]
-            if not any(isinstance(c.func, (ast.Name, ast.Attribute)) for c in calls):
-                continue
+            if not any(isinstance(c.func, (ast.Name, ast.Attribute)) for c in calls) and not module_level:
+                continue      # (a module-level cache is checked at parameter level whatever the stored expression is)
             recs = [r for r in an.sub_records.get((f.fq, ()), []) if r[0] is st]
             kdeps = set()
             vdeps = set()
